@@ -42,7 +42,7 @@ POW3 = (3, 9, 27, 81, 243, 729)
 # Until that is decided / repaired the "larger sampled lengths" of ns_optim_fft stop at the cap.  To lift it: set
 # NSOPTIM_BEYOND_CAP = True (the arguments below are then checked as well, and random ones are drawn up to 10^12).
 NSOPTIM_LARGE_CAP = 14155776      # = 2^19 3^3, the largest 2^a 3^b below 3^15
-NSOPTIM_BEYOND_CAP = False
+NSOPTIM_BEYOND_CAP = True
 NSOPTIM_BEYOND = [14155777, 14348907, 14348908, 2 * 3 ** 15, 2 ** 25 - 1, 2 ** 25, 2 ** 25 + 1, 3 ** 16, 2 ** 31 - 1, 2 ** 31, 2 ** 31 + 1,
                   3 ** 20 + 1, 10 ** 12]
 
